@@ -80,7 +80,7 @@ Proof. vm_compute. repeat split. Qed.
 
 (* one rule `rule r { strings: $a = "ab" condition: $a }`, one input, both engines report the same *)
 Definition ex_rule (c : expr) : crule :=
-  {| c_ns := 0; c_id := 0; c_global := false; c_private := false; c_strings := [SText ex_decl]; c_nlits := [1]; c_cond := Some c |}.
+  {| c_ns := 0; c_id := 0; c_global := false; c_private := false; c_strings := [SText ex_decl]; c_nlits := [1]; c_glue := [false]; c_cond := Some c |}.
 
 Example C07_example_agree :
   C07_case [ex_rule (EVar (Some 0%nat))] [ex_mem]
